@@ -70,6 +70,26 @@ _R6 = {
 }
 for _p, _t in _R6.items():
     CHECKS[_p]["text"] = CHECKS[_p]["text"] + _t
+# ---- clauses added in round 7
+_R7 = {
+ "C01": " No flattening with view(-1) of a tensor that has the strides of a user tensor, and no conversion of the Jacobian / the aggregated vector to a fixed or default dtype.",
+ "C02": " A second abstract run passes `features` and `losses` as tuples (no TypeError); the transforms handed to the stack are in the order of the tasks.",
+ "C03": " The QP solution is not stored into a buffer allocated with the dtype of the preference vector.",
+ "C05": " A tensor listed twice in `inputs` is accepted (as torch.autograd.backward does).",
+ "C06": " A requested collection is never re-bound to a selection of itself.",
+ "C07": " The instance runs are consulted on every run: a single-row sweep never runs batched (torch.vmap or is_grads_batched); vmap's own chunk_size is the row count of the block.",
+ "C11": " A 0-d input is rejected with ValueError too; values are not stored into buffers that have the dtype of a configuration tensor.",
+ "C12": " Discovered leaves are not de-duplicated by a derived key; the walker may classify nodes when they are discovered; excluded roots may be subtracted by the caller.",
+ "C13": " Inside summarised loops 'is this element's collection empty' is decided uniformly per path; vmap's own chunk_size must not split the last block.",
+ "C14": " Shape validators decide on shapes, not by quantifying over the rows of the value; the checks may be declared as class-level tables walked by TensorDict.__init__.",
+ "C15": " (see C01 for view(-1) and dtype conversions.)",
+ "C16": " TrimmedMean may select by two partial selections (rank windows compose); trimming by position without ordering, and a total from which the extremes are subtracted, are reported.",
+ "C18": " PCGrad: a conflict mask computed before the loops reads the original rows (reported); GradDrop: the mask algebra is integer-valued (signed masks), and a constructor-time copy derived from a public attribute that forward also reads is reported.",
+ "C19": " The cap may be one expression (evaluated in both regimes); every returning path of forward passes the cap; reset() touches only attributes the constructor creates.",
+ "C20": " Before the first .grad write a test has established that tensors / features / losses are non-empty, in every argument form.",
+}
+for _p, _t in _R7.items():
+    CHECKS[_p]["text"] = CHECKS[_p]["text"] + _t
 NA_PENDING = "check not built yet in this commit (planned, see DESIGN.md section 5)"
 NOT_APPLICABLE = {
  "C04": "Non-conflict is a numerical inequality on the outputs of a QP, a Frank-Wolfe loop and a conic solver with input-dependent allowances; no clause of it is visible in the shape of the code.",
